@@ -305,6 +305,90 @@ Definition K_IN : bytes := [73; 78]. (* IN *)
 
 (** * The WHERE expression grammar (query.rs: expr / or_expr / and_expr / factor) *)
 
+(** * The expression grammar, generic in its leaves
+
+    [expr = or_expr], [or_expr = x:and_expr() y:( _ ci('OR') _ y:or_expr() )?] (or the re-parsing form
+    with the same result), [and_expr] likewise over [factor],
+    [factor = ci('NOT') _ factor / '(' _ expr _ ')' / <leaves>].  query.rs and plotql.rs each carry a
+    copy of these rules over their own leaves ([lf]). *)
+Section ExprG.
+Variable lf : P expr.
+
+Fixpoint or_expr_g (fuel : nat) (s : bytes) {struct fuel} : res (expr * bytes) :=
+  match fuel with
+  | O => OOF
+  | S f =>
+      (* x:and_expr() _ ci('OR') _ y:or_expr() / and_expr() *)
+      match and_expr_g f s with
+      | Ok (x, r) =>
+          match ci K_OR (ws r) with
+          | Some r1 =>
+              match or_expr_g f (ws r1) with
+              | Ok (y, r2) => Ok (EOr x y, r2)
+              | Err => Ok (x, r)
+              | Panic k => Panic k
+              | OOF => OOF
+              end
+          | None => Ok (x, r)
+          end
+      | other => other
+      end
+  end
+with and_expr_g (fuel : nat) (s : bytes) {struct fuel} : res (expr * bytes) :=
+  match fuel with
+  | O => OOF
+  | S f =>
+      (* x:factor() _ ci('AND') _ y:and_expr() / factor() *)
+      match factor_g f s with
+      | Ok (x, r) =>
+          match ci K_AND (ws r) with
+          | Some r1 =>
+              match and_expr_g f (ws r1) with
+              | Ok (y, r2) => Ok (EAnd x y, r2)
+              | Err => Ok (x, r)
+              | Panic k => Panic k
+              | OOF => OOF
+              end
+          | None => Ok (x, r)
+          end
+      | other => other
+      end
+  end
+with factor_g (fuel : nat) (s : bytes) {struct fuel} : res (expr * bytes) :=
+  match fuel with
+  | O => OOF
+  | S f =>
+      (* ci('NOT') _ x:factor() / '(' _ e:expr() _ ')' / comparison() / in_expr() / atom() *)
+      let rest_alts (_ : unit) :=
+        match (match lit 40 s with
+               | Some r1 =>
+                   match or_expr_g f (ws r1) with
+                   | Ok (e, r2) =>
+                       match lit 41 (ws r2) with
+                       | Some r3 => Ok (e, r3)
+                       | None => Err
+                       end
+                   | other => other
+                   end
+               | None => Err
+               end) with
+        | Err => lf s
+        | other => other
+        end in
+      match ci K_NOT s with
+      | Some r1 =>
+          match factor_g f (ws r1) with
+          | Ok (x, r2) => Ok (ENot x, r2)
+          | Err => rest_alts tt
+          | Panic k => Panic k
+          | OOF => OOF
+          end
+      | None => rest_alts tt
+      end
+  end.
+
+End ExprG.
+
 Section Grammar.
 Variable fx : bool.   (* false: the grammar as it is; true: numeric conversions fail the rule *)
 
@@ -376,78 +460,10 @@ Definition atom : P expr :=
 
 Definition leaf : P expr := alt comparison (alt in_expr atom).
 
-Fixpoint or_expr (fuel : nat) (s : bytes) {struct fuel} : res (expr * bytes) :=
-  match fuel with
-  | O => OOF
-  | S f =>
-      (* x:and_expr() _ ci('OR') _ y:or_expr() / and_expr() *)
-      match and_expr f s with
-      | Ok (x, r) =>
-          match ci K_OR (ws r) with
-          | Some r1 =>
-              match or_expr f (ws r1) with
-              | Ok (y, r2) => Ok (EOr x y, r2)
-              | Err => Ok (x, r)
-              | Panic k => Panic k
-              | OOF => OOF
-              end
-          | None => Ok (x, r)
-          end
-      | other => other
-      end
-  end
-with and_expr (fuel : nat) (s : bytes) {struct fuel} : res (expr * bytes) :=
-  match fuel with
-  | O => OOF
-  | S f =>
-      (* x:factor() _ ci('AND') _ y:and_expr() / factor() *)
-      match factor f s with
-      | Ok (x, r) =>
-          match ci K_AND (ws r) with
-          | Some r1 =>
-              match and_expr f (ws r1) with
-              | Ok (y, r2) => Ok (EAnd x y, r2)
-              | Err => Ok (x, r)
-              | Panic k => Panic k
-              | OOF => OOF
-              end
-          | None => Ok (x, r)
-          end
-      | other => other
-      end
-  end
-with factor (fuel : nat) (s : bytes) {struct fuel} : res (expr * bytes) :=
-  match fuel with
-  | O => OOF
-  | S f =>
-      (* ci('NOT') _ x:factor() / '(' _ e:expr() _ ')' / comparison() / in_expr() / atom() *)
-      let rest_alts (_ : unit) :=
-        match (match lit 40 s with
-               | Some r1 =>
-                   match or_expr f (ws r1) with
-                   | Ok (e, r2) =>
-                       match lit 41 (ws r2) with
-                       | Some r3 => Ok (e, r3)
-                       | None => Err
-                       end
-                   | other => other
-                   end
-               | None => Err
-               end) with
-        | Err => leaf s
-        | other => other
-        end in
-      match ci K_NOT s with
-      | Some r1 =>
-          match factor f (ws r1) with
-          | Ok (x, r2) => Ok (ENot x, r2)
-          | Err => rest_alts tt
-          | Panic k => Panic k
-          | OOF => OOF
-          end
-      | None => rest_alts tt
-      end
-  end.
+(** the three rule levels over this grammar's leaves (generic part: [or_expr_g] above the section) *)
+Definition or_expr := or_expr_g leaf.
+Definition and_expr := and_expr_g leaf.
+Definition factor := factor_g leaf.
 
 (** fuel that always suffices: three rule levels per consumed byte *)
 Definition expr_fuel (s : bytes) : nat := 3 * length s + 3.
